@@ -157,7 +157,11 @@ func childC05(args []string) {
 		}
 		for i := from; i < to; i++ {
 			var pid, msg, cls string
-			if i%2 == 0 {
+			if i%3 == 2 {
+				// failure lines whose client-chosen name embeds other complete messages
+				c := c17Gen(seed, i)
+				pid, msg, cls = c05PIDs[i%len(c05PIDs)], c.Msg, "adversarial-name:"+c.Form
+			} else if i%2 == 0 {
 				r := vlib.NewRng(seed, "C05/never/"+strconv.Itoa(i))
 				c := vlib.GenSsh(r, failForms[(i/2)%len(failForms)], -1, -1)
 				pid, msg, cls = c05PIDs[i%len(c05PIDs)], c.Msg, c.Form
